@@ -226,6 +226,12 @@ func (w *World) loopHead(fr *Frame, st *State, h *ssa.BasicBlock, k int) {
 			w.oblige("loop.init", fmt.Sprintf("loop%d.init.%s", k, inv.Label), st.cond, w.skolemGoal(env, inv.Expr), inv.Star, props)
 		}
 	}
+	if fr.top && fr.contract != nil && fr.contract.Opts["forget-before-loop"] == fmt.Sprint(k) {
+		// proof slice: what was learnt before this loop head is not used for the obligations generated from
+		// here on (sound: fewer hypotheses); keeps the queries of a long function small
+		w.forgetMark = w.sc.mark()
+		w.quantFacts = nil
+	}
 	// havoc what the loop may write
 	cells, keys, all := w.loopWrites(fr, fr.loops.body[h])
 	if all {
@@ -285,6 +291,10 @@ func (w *World) loopHead(fr *Frame, st *State, h *ssa.BasicBlock, k int) {
 		assigned := map[cellID]bool{}
 		for _, c := range cells {
 			assigned[c] = true
+		}
+		w.curLoopKeys = map[string]bool{}
+		for _, k := range keys {
+			w.curLoopKeys[k] = true
 		}
 		callTargets := w.resolveLoopCallTargets(fr, st, keys, inLoop, assigned)
 		for _, key := range keys {
@@ -539,6 +549,14 @@ func (w *World) loopInvariantTerm(fr *Frame, st *State, v ssa.Value, inLoop map[
 				id := cellID{fr.id, a}
 				if cur, live := st.cells[id]; live && !assigned[id] {
 					return cur, true
+				}
+			}
+			// an escaping local (e.g. a parameter captured by a closure): its heap cell keeps its value
+			// when nothing in the loop writes cells of that sort
+			if a, ok := x.X.(*ssa.Alloc); ok && a.Heap && !inLoop[a.Block()] && w.curLoopKeys != nil {
+				key := w.cellKey(w.sortOf(deref(a.Type())))
+				if pv, ok := fr.vals[a]; ok && pv.T.S != "" && !w.curLoopKeys[key] {
+					return sel(w.hget(st, key), pv.T), true
 				}
 			}
 		}
